@@ -212,3 +212,29 @@ def deref(fnode, e, depth=4):
                 return R(self.d - 1).visit(_copy.deepcopy(ok[n.id]))
             return n
     return R(depth).visit(_copy.deepcopy(e))
+
+
+def none_to_default(st, name, default=0):
+    """Is `st` a re-binding of `name` that only replaces None by `default` and
+    leaves every other value alone?  Forms: `name = D if name is None else name`,
+    `name = name if name is not None else D`.  (The statement form
+    `if name is None: name = D` is recognised by its dominating fact instead.)"""
+    import ast as _ast
+    from .pyrepo import dotted
+    if not (isinstance(st, _ast.Assign) and len(st.targets) == 1
+            and dotted(st.targets[0]) == name and isinstance(st.value, _ast.IfExp)):
+        return False
+    e = st.value
+    t = e.test
+    if not (isinstance(t, _ast.Compare) and len(t.ops) == 1 and dotted(t.left) == name
+            and isinstance(t.comparators[0], _ast.Constant) and t.comparators[0].value is None):
+        return False
+
+    def isd(x):
+        return isinstance(x, _ast.Constant) and x.value == default and x.value is not None \
+            and not isinstance(x.value, bool)
+    if isinstance(t.ops[0], _ast.Is):
+        return isd(e.body) and dotted(e.orelse) == name
+    if isinstance(t.ops[0], _ast.IsNot):
+        return dotted(e.body) == name and isd(e.orelse)
+    return False
